@@ -5,6 +5,7 @@ package main
 
 import (
 	"fmt"
+	"strings"
 	"time"
 
 	"github.com/failsafe-go/failsafe-go/circuitbreaker"
@@ -52,7 +53,7 @@ func pxAlphabet() (all []Spec, sub []Spec) {
 	}
 	fb := []Spec{
 		{Kind: KFallback, FbV: 9},
-		{Kind: KFallback, FbE: E3},
+		{Kind: KFallback, FbV: 5, FbE: E3}, // an output that is itself a failure and carries a value as well
 		{Kind: KFallback, FbV: 9, Handle: []Cond{{K: "errs", E: circuitbreaker.ErrOpen}, {K: "errs", E: timeout.ErrExceeded}}},
 	}
 	cache := []Spec{
@@ -184,6 +185,13 @@ func pxStackPrograms(tier, checks string, si int, stack []Spec) []*Program {
 			if tier != "thorough" {
 				variants = variants[:2]
 			}
+			if strings.Contains(checks, "stats") && len(sc) >= 2 {
+				// statistics: also the second invocation outlasting the time limit (the attempt that is cut
+				// short then has a completed attempt before it)
+				slow2 := append([]Out{}, sc...)
+				slow2[1].Dur = 2 * pxL
+				variants = append(variants, slow2)
+			}
 		}
 		for vi, v := range variants {
 			// history: the same script twice (stateful policies see their own effects), then a plain success
@@ -280,7 +288,7 @@ func init() {
 	})
 	register(&CheckDef{
 		Property:  "C16",
-		Technique: "the C01 program enumeration with every listener of every builder registered, the event log of each execution checked against the event contract; plus schedule exploration of concurrent executions sharing listeners, of hedge attempts returning around the hedge delays, and of async executions cancelled at every kind of instant",
+		Technique: "the C01 program enumeration with every listener of every builder registered, the event log of each execution checked against the event contract; plus schedule exploration of concurrent executions sharing listeners, of hedge attempts returning around the hedge delays, of async executions cancelled at every kind of instant, of breaker transitions made by several threads (connected event path ending in the breaker's state), and of cancellations landing while an execution waits for a bulkhead or limiter permit (refusal listeners only for refusals)",
 		Rule: "same program space as C01, plus the hedge-timing family of C09 (attempts returning before, at and after the instants the hedge delays expire); the oracle is the event contract: one OnDone and one of OnSuccess/OnFailure; OnRetryScheduled/OnRetry per retry decided/started and their order; OnRetriesExceeded/OnAbort at most once and only in the matching situation; " +
 			"breaker events = the reference machine's transitions, specific then generic; OnFull/OnRateLimitExceeded/OnTimeoutExceeded/OnFallbackExecuted/OnHedge/cache events exactly when the rejection, timeout, fallback, hedge, hit, miss, store happened; policy OnSuccess/OnFailure per classified result",
 		Assume: []string{"an abort-matching failure on the exhausting attempt may be reported as either story (one event)", "an execution without any cache key may or may not report a miss"},
@@ -288,6 +296,7 @@ func init() {
 		Units: func(tier string) []Unit {
 			us := append(pxUnits("C16", tier, "layers,events", 1), c16ConcurrentUnits(tier)...)
 			us = append(us, chunkUnits("C16", c16AsyncScenarios(tier), 10)...)
+			us = append(us, chunkUnits("C16", c16StoryScenarios(tier), 4)...)
 			return append(us, chunkUnits("C16", hedgeTimingScenarios("C16/hedge-timing", tier, "events"), 40)...)
 		},
 	})
